@@ -74,6 +74,15 @@ def integration_and_binning(ctx, lentil, rng):
             if abs(obs - ev) > 1e-10 * (1 + abs(ev)):
                 ctx.violation({'kind': 'integrate-trapz'}, {'spectrum': c['s'], 'lo': lo, 'hi': hi, 'expected': ev, 'observed': float(obs)},
                               case={'case': c})
+            # the same spectrum written in another wavelength unit (numbers of the order 1e-7 in metres): same integral, rescaled
+            for u in ('m', 'um', 'angstrom'):
+                fu = 10.0 ** (-9 - sp.EXP[u])
+                su = lentil.radiometry.Spectrum(np.asarray(s.wave, dtype=float) * fu, np.array(s.value, dtype=float), waveunit=u, valueunit=None)
+                ou = su.integrate(lo * fu, hi * fu, method='trapz')
+                if abs(ou - ev * fu) > 1e-9 * fu * (1 + abs(ev)):
+                    ctx.violation({'kind': 'integrate-trapz', 'waveunit': u}, {'spectrum': c['s'], 'lo': lo * fu, 'hi': hi * fu, 'expected': ev * fu, 'observed': float(ou)},
+                                  case={'case': c})
+                    break
             full = s.integrate(method='trapz')
             if abs(full - float(sp.rf(e['all']))) > 1e-10 * (1 + abs(full)):
                 ctx.violation({'kind': 'integrate-trapz-default-bounds'}, {'spectrum': c['s']}, case={'case': c})
@@ -106,6 +115,24 @@ def integration_and_binning(ctx, lentil, rng):
                 span = s.integrate(min(centres), max(centres), method=m)
                 if abs(bp.sum() - span) > 1e-9 * (1 + abs(span)) or np.any(bp < -1e-12):
                     ctx.violation(dict(sig, kind='bin-preserve-power'), {'sum': float(bp.sum()), 'integral_over_span': float(span)}, case={'case': c})
+                d_ = centres[1] - centres[0]
+                e_lo, e_hi = (centres[0] - d_ / 2, centres[-1] + d_ / 2) if c['ends'] == 'symmetric' else (centres[0], centres[-1])
+                interior = float(s.wave[0]) < e_lo and e_hi < float(s.wave[-1])
+                # (an outer bin edge that coincides with an end of the spectrum's range is an inside/outside tie once the numbers
+                #  have been converted inexactly: only set-ups whose edges lie strictly inside the range are compared across units)
+                if ctype == 'float' and interior:
+                    # centres given in another unit than the spectrum's own (waveunit=): the same bins, in that unit
+                    u = ('um', 'angstrom', 'm')[c['id'] % 3]
+                    fu = 10.0 ** (-9 - sp.EXP[u])
+                    cu = [x * fu for x in centres]
+                    try:
+                        bu = s.bin(cu, interp_method=m, ends=c['ends'], preserve_power=False, waveunit=u)
+                        bpu = s.bin(cu, interp_method=m, ends=c['ends'], preserve_power=True, waveunit=u)
+                        oku = np.allclose(bu, b * fu, rtol=1e-9, atol=1e-12 * fu) and np.allclose(bpu, bp * fu, rtol=1e-9, atol=1e-12 * fu)
+                    except Exception as ex:
+                        oku = False
+                    if s.waveunit != 'nm' or not oku:
+                        ctx.violation(dict(sig, kind='bin-in-another-unit', waveunit=u), {'centres': cu}, case={'case': c})
                 if m == 'trapz' and abs(span - float(sp.rf(e['span']))) > 1e-10 * (1 + abs(span)):
                     ctx.violation(dict(sig, kind='integrate-span'), {}, case={'case': c})
     return len(cases)
